@@ -33,6 +33,8 @@ Clauses(e) ==
       RefusedChangesNothing |-> (e.ev = "Req" /\ e.exec /\ Outcome(e) # "handled") => e.post = e.pre,
       TruncatedNotSuccess |-> (e.ev = "Req" /\ e.exec /\ Outcome(e) = "truncated") => e.status # "success",
       ActionReachesComponent |-> (e.ev = "Req" /\ e.action /\ e.exist) => Outcome(e) \in {"handled", "failure"},
+      \* ... and the ANSWER says so too (the walk above is the harness' own; the status is the simulator's)
+      ActionNeverUnreachable |-> (e.ev = "Req" /\ e.exec /\ e.action /\ e.exist) => e.status # "unreachable",
       MaskExact          |-> (e.ev = "Req" /\ e.mask # "na") => (e.mask = "allow" <=> MaskAllows(e.path) /\ e.leaf),
       MaskedNeverSucceeds |-> (e.ev = "Req" /\ e.exec /\ e.mask = "deny") => e.status # "success"
     ]
